@@ -1061,7 +1061,10 @@ func (w *world) hiddenLabelled(before map[string]snap, pi *passInfo) []string {
 // context; labelled pods it withholds lose their rollout-id label (which pods the ordered filter
 // withholds does not depend on that label, so the repair is stable).
 func (w *world) neutraliseHidden() {
-	if w.rolloutID == "" || !w.rollback || w.kind == kDeployment {
+	// (the listed finding is about the ORDERED filter of StatefulSet-like workloads; the unordered
+	// filter never withholds a pod already labelled for this release, so nothing is repaired there
+	// and a change that makes it do so is reported)
+	if w.rolloutID == "" || !w.rollback || w.kind != kStatefulSet {
 		return
 	}
 	pi := w.buildContext()
@@ -1261,7 +1264,7 @@ func (w *world) pass(targetDelta int) {
 			w.sum.exceededBefore++
 		}
 		if ca[v] > allowed && ca[v] > cb[v] {
-			if hl := w.hiddenLabelled(before, pi); len(hl) > 0 {
+			if hl := w.hiddenLabelled(before, pi); len(hl) > 0 && w.kind == kStatefulSet {
 				w.fail(sigHidden, "batch-id %q: %d live update-revision pods carry (%q,%q) after the pass, %d before; the plan %v with %d replicas adds %d pods in that batch (current batch index %d). Pods already labelled for this release but withheld from the patcher by the %s filter (not counted against the budget): %v",
 					v, ca[v], w.rolloutID, v, cb[v], w.batches, w.replicas, allowed, w.cur, w.kind, hl)
 			}
